@@ -41,17 +41,42 @@ class World:
             window_size=self.W, biased_covariance=self.biased)
 
 
+OWNING = ("assign", "assign_direct", "deep_copy", "stats", "opt", "relabel")
+
+
+def owned_after(op, before, after):
+    """does the state produced by `op` own its clusters' member lists?  (A model-level shallow copy, and a
+    repopulation that had nothing to do and returned its argument, share cluster objects by design.)"""
+    if op[0] in OWNING:
+        return True
+    if op[0] == "repop":
+        return after is not before
+    return False
+
+
 def ops_alphabet():
     ops = [("assign", name) for name in LABEL_MENU]
+    ops += [("assign_direct", name) for name in ("bal", "single", "inter")]
     ops += [("deep_copy",), ("shallow_copy",), ("stats",), ("opt",), ("relabel",),
             ("repop", "first"), ("repop", "last")]
     return ops
 
 
-def apply_op(world, s, op):
+class NotOwned(Exception):
+    pass
+
+
+def apply_op(world, s, op, owned=True):
     """returns the new state; raises if the operation is not enabled in s"""
     o = TRACER.orig
     kind = op[0]
+    if kind == "assign_direct":
+        # the plain setter on a state that owns its clusters (output of a phase, of a deep copy or of
+        # the copy-then-assign idiom): membership must be re-derived, and no OTHER live state may change
+        if not owned:
+            raise NotOwned()
+        s.point_labels = list(LABEL_MENU[op[1]](world.T, world.K))
+        return s
     if kind == "assign":
         # the library's own idiom for "a state I own": shallow copy + copied clusters
         t = s.shallow_copy()
@@ -191,9 +216,12 @@ def run_history(world, hist):
     A prefix that raises is a harness error (prefixes were enabled when explored)."""
     from fast_ticc.containers import model_state
     states = [model_state.ModelState.empty_model(world.args(), world.X)]
+    owned = True
     for i, op in enumerate(hist):
         try:
-            states.append(apply_op(world, states[-1], op))
+            before = states[-1]
+            states.append(apply_op(world, before, op, owned))
+            owned = owned_after(op, before, states[-1]) if op[0] != "shallow_copy" else False
         except HarnessError:
             raise
         except Exception as e:
@@ -213,8 +241,11 @@ def check_last_op(world, hist):
         raise HarnessError("prefix raised")
     snaps = [seams.snapshot_parts(s) for s in states]
     op = hist[-1]
+    owned = True
+    for j, o_ in enumerate(hist[:-1]):
+        owned = owned_after(o_, states[j], states[j + 1])
     try:
-        new = apply_op(world, states[-1], op)
+        new = apply_op(world, states[-1], op, owned)
     except HarnessError:
         raise
     except Exception as e:
@@ -225,6 +256,8 @@ def check_last_op(world, hist):
                 msgs.append(f"{op} raised {type(e).__name__} and altered live state #{i}: {ch[:3]}")
         return msgs, None, None
     for i, (s, sn) in enumerate(zip(states, snaps)):
+        if op[0] == "assign_direct" and s is new:
+            continue                    # the state being assigned to
         ch = seams.describe_state_diff(s, sn)
         if ch:
             which = "the state it was given" if i == len(states) - 1 else f"an older live state (#{i})"
@@ -247,7 +280,7 @@ def check_last_op(world, hist):
         bad = content_equal_where_set(states[-1], new)
         if bad:
             msgs.append(f"shallow copy differs from its source in {bad[:4]}")
-    if op[0] == "assign":
+    if op[0] in ("assign", "assign_direct"):
         want = list(LABEL_MENU[op[1]](world.T, world.K))
         if [int(x) for x in new.point_labels] != want:
             msgs.append(f"assigned {want}, state reports {new.point_labels}")
